@@ -63,6 +63,24 @@ def matrix(items):
     return rec
 
 
+def twin_items():
+    """Items that differ in exactly one component that is easy to leave out of a key: the bound variable of a
+    quantified sentence (also where the quantifier is vacuous or the body open: these are items, whatever the
+    parsers accept), the subscript of a parameter, the arity of a predicate."""
+    x, y = Variable(0, 0), Variable(1, 0)
+    F2, G1 = Predicate(0, 0, 2), Predicate(1, 0, 1)
+    a = Constant(0, 0)
+    out = []
+    for q in Quantifier:
+        for body in (F2(x, y), G1(a), G1(x)):
+            out += [Quantified(q, x, body), Quantified(q, y, body)]
+    E, U = Quantifier.Existential, Quantifier.Universal
+    out += [Quantified(U, x, Quantified(E, y, F2(x, y))), Quantified(U, y, Quantified(E, x, F2(x, y))),
+            Quantified(U, x, Quantified(E, y, F2(y, x))), ~Quantified(E, x, G1(x)), ~Quantified(E, y, G1(y)),
+            Predicate(0, 1, 2), Predicate(0, 0, 1), Constant(0, 1), Variable(0, 1)]
+    return out
+
+
 def do_matrix(sents, out, maxitems, seed):
     rng = random.Random(seed)
     ss = [dec_sent(json.loads(l)['s']) for l in open(sents)]
@@ -73,6 +91,7 @@ def do_matrix(sents, out, maxitems, seed):
         if len(acc) > 4 * int(maxitems):
             break
     acc += [Predicate.Identity, Predicate.Existence, Constant(0, 3), Variable(3, 1), Atomic(4, 2)]
+    twins = twin_items()
     # keep duplicates (equal items built twice) on purpose: rebuild some through their spec
     items = []
     seen = {}
@@ -82,7 +101,8 @@ def do_matrix(sents, out, maxitems, seed):
         if seen[k] <= 2:
             items.append(x)
     rng.shuffle(items)
-    items = items[:int(maxitems)]
+    items = items[:int(maxitems)] + twins
+    rng.shuffle(items)
     args = []
     for k in range(0, min(len(ss), 36), 3):
         args.append(Argument(ss[k], ss[k + 1:k + 1 + k % 3]))
@@ -140,6 +160,7 @@ UNIVERSE = [
     ['A', 0, 0], ['P', [-1, 0, 2], [['c', 0, 0], ['c', 1, 0]]], ['P', [-2, 0, 1], [['c', 0, 0]]],
     ['P', [0, 0, 1], [['c', 0, 0]]], ['Q', 'Existential', ['v', 0, 0], ['P', [0, 0, 1], [['v', 0, 0]]]],
     ['O', 'Negation', [['P', [-1, 0, 2], [['c', 1, 0], ['c', 1, 0]]]]],
+    ['Q', 'Existential', ['v', 1, 0], ['P', [0, 0, 1], [['v', 0, 0]]]],       # twin of item 4: other bound variable
 ]
 
 
